@@ -303,7 +303,9 @@ def run(ck: Check) -> None:
         mnormal = int(model[_i].split("exit=")[1]) if "exit=" in model[_i] else -1
         # where the report goes (stdout or stderr) is the tool's business: on a stdout that cannot take text the status is the one the model gives for a
         # failing report, or the ordinary one (theorem failing_stdout_status: 1 or the status reported otherwise)
-        if rc not in (mexit, mnormal):
+        # ... and a tool whose report itself fails on such a stdout (exit 1 from a traceback) is as good: what the model is compared on here is the class of
+        # the status (zero / non-zero) of *rejected* pairs — rejected_nonzero_any_stdout; for accepted pairs nothing can be reported and nothing is demanded
+        if (mexit != 0 or mnormal != 0) and rc == 0:
             ck.mismatch_total += 1
             kk = f"cli-verify-stdout:{cond}:{kind}:impl={rc}:model={mexit}"
             ck.mismatch_kinds[kk] = ck.mismatch_kinds.get(kk, 0) + 1
